@@ -15,15 +15,22 @@ Definition ty_eqb (a b : ty) : bool :=
 
 (* A python / numpy scalar as the attribute code sees it: its Attribute.Type (via type(x)) and its value.
    Floats are carried exactly as multiples of 1/8 (CF z is z/8), complex numbers as two such parts, strings as
-   interned codes (0 is the empty string; the code only ever compares and stores strings).
+   the list of their character codes (the fixed-width numpy storage truncates them).
    CX is an object whose type is outside Attribute.Type's vocabulary (None, numpy.float16, numpy.complex128, numpy.str_, list). *)
 Inductive comp :=
-| CB (b : bool) | CI (z : Z) | CF (z : Z) | CC (re im : Z) | CS (s : Z) | CX.
+| CB (b : bool) | CI (z : Z) | CF (z : Z) | CC (re im : Z) | CS (s : list Z) | CX.
 
 Definition kind_of (c : comp) : option ty :=
   match c with
   | CB _ => Some TBool | CI _ => Some TInt | CF _ => Some TFloat | CC _ _ => Some TComplex | CS _ => Some TString
   | CX => None
+  end.
+
+Fixpoint zlist_eqb (a b : list Z) : bool :=
+  match a, b with
+  | [], [] => true
+  | x :: s, y :: t => Z.eqb x y && zlist_eqb s t
+  | _, _ => false
   end.
 
 Definition comp_eqb (a b : comp) : bool :=
@@ -32,12 +39,12 @@ Definition comp_eqb (a b : comp) : bool :=
   | CI x, CI y => Z.eqb x y
   | CF x, CF y => Z.eqb x y
   | CC x1 x2, CC y1 y2 => Z.eqb x1 y1 && Z.eqb x2 y2
-  | CS x, CS y => Z.eqb x y
+  | CS x, CS y => zlist_eqb x y
   | CX, CX => true
   | _, _ => false
   end.
 
 (* A value handed to attr[key] = value.
    VScal : a non-iterable scalar object;  VSeq : list / tuple / 1-d numpy array (what list(value) yields);
-   VStr  : a python str (its own code, and the codes of its characters: list("ab") = ['a','b']). *)
-Inductive value := VScal (c : comp) | VSeq (l : list comp) | VStr (s : Z) (chars : list Z).
+   VStr  : a python str (iterating it yields its characters: list("ab") = ['a','b']). *)
+Inductive value := VScal (c : comp) | VSeq (l : list comp) | VStr (s : list Z).
